@@ -25,6 +25,8 @@ HOSTILE_NAMES = [
     "\U0001F600x", "a\U0001F600b", "\\", "a\\", "x\\\\", "a  b", "'", '"', "\\'", '\\"',
     # look-alikes: decomposed vs precomposed, full-width, invisible and blank-like characters, number-like names
     "e\u0301", "\u00e9", "\uff11", "\uff41", "\u200b", "\ufeff", "\u0085", "\u00a0", "\u2029", "1e2", "0x1", "-0", " a", "a ", "01", "1.0", "+1", "E", "\u0130", "\u0131", "\u00df", "ss", "\u212a", "k", "K",
+    # every single-character escape and its neighbours, C1 controls, singletons that normalisation would rewrite
+    "\b", "\f", "\r", "a\bb", "\f\b", "\x0b", "\x0e", "\x80", "\x9f", "\u2126", "\u03a9", "\u212b", "\u00c5", "\u1100\u1161", "\uac00", "A\u030a",
 ]
 PLAIN_NAMES = ["a", "b", "c", "d", "ab", "_x", "a1", "é", "\U0001F600"]
 
